@@ -94,7 +94,7 @@ def none_ok(t):
 
 
 POSITIONS = ['arg', 'field', 'field2', 'array', 'seq', 'seq-arg', 'xmlattr', 'xmldata', 'ret-multi', 'header',
-             'bare', 'out_bare']
+             'bare', 'out_bare', 'inherited', 'inherited-seq']
 XML_ONLY = {'xmlattr', 'xmldata', 'header'}
 
 
@@ -115,6 +115,17 @@ def program_for(atom_t, pos):
         m['ret'] = atom_t
     elif pos == 'field':
         prog['classes'].append({'n': 'P', 'fields': [['z', I], ['f', atom_t], ['y', I]]})
+        m['args'] = [['a', ['c', 'P', {}]]]
+        m['ret'] = ['c', 'P', {}]
+    elif pos in ('inherited', 'inherited-seq'):
+        # the member is declared in the parent class of the class the message uses
+        ft = atom_t
+        if pos == 'inherited-seq':
+            if atom_t[0] != 'p' and atom_t[0] != 'e':
+                return None
+            ft = [atom_t[0], atom_t[1], dict(atom_t[2] or {}, max_occurs='unbounded')]
+        prog['classes'].append({'n': 'P0', 'fields': [['z', I], ['f', ft]]})
+        prog['classes'].append({'n': 'P', 'base': 'P0', 'fields': [['y', I]]})
         m['args'] = [['a', ['c', 'P', {}]]]
         m['ret'] = ['c', 'P', {}]
     elif pos == 'field2':
@@ -179,7 +190,7 @@ def embed(pos, atom_t, v, v2=None, mode='one'):
     mode: 'one' single value; for array/seq positions v may be a list already."""
     if pos == 'arg' or pos == 'out_bare':
         return [v, 7], v, None, None
-    if pos == 'field' or pos == 'seq':
+    if pos in ('field', 'seq', 'inherited', 'inherited-seq'):
         o = Obj('P', z=1, f=v, y=2)
         return [o], o, None, None
     if pos == 'bare':
@@ -209,7 +220,7 @@ def slot_values(pos, atom_t, tier, limit=None):
     """values for the slot of the position: scalars (+None), or lists for array/seq positions"""
     av = atom_values(atom_t, tier, limit)
     out = []
-    if pos in ('array', 'seq', 'seq-arg'):
+    if pos in ('array', 'seq', 'seq-arg', 'inherited-seq'):
         member_none = validity.nillable(atom_t)
         mn = validity.attrs_of(atom_t).get('min_occurs', 0)
         if pos == 'array' or mn == 0:
